@@ -51,6 +51,39 @@ Fixpoint ov_to_dm (o : ov) : option dm :=
       | Some ds => Some (DMap ds) | None => None end
   end.
 
+
+(* what datamodel.Copy carries over: like [ov_to_dm], but an Absent child is skipped (Copy: "if
+   v.IsAbsent() { continue }") — the type-level view of a struct shows absent fields as Absent *)
+Fixpoint ov_copy (o : ov) : option dm :=
+  match o with
+  | OScalar d => Some d
+  | OAbsent | OErr _ => None
+  | OList _ its =>
+      match (fix go (l : list (Z * ov)) : option (list dm) :=
+               match l with
+               | [] => Some []
+               | x :: r =>
+                   match snd x with
+                   | OAbsent => go r
+                   | _ => match ov_copy (snd x), go r with
+                          | Some d, Some ds => Some (d :: ds) | _, _ => None end
+                   end
+               end) its with
+      | Some ds => Some (DList ds) | None => None end
+  | OMap _ ents =>
+      match (fix go (l : list (bytes * ov)) : option (list (bytes * dm)) :=
+               match l with
+               | [] => Some []
+               | x :: r =>
+                   match snd x with
+                   | OAbsent => go r
+                   | _ => match ov_copy (snd x), go r with
+                          | Some d, Some ds => Some ((fst x, d) :: ds) | _, _ => None end
+                   end
+               end) ents with
+      | Some ds => Some (DMap ds) | None => None end
+  end.
+
 (* what dag-cbor's marshal reads: Kind, then Length + LookupByIndex for a list, Length + MapIterator
    (with a count check) for a map; datamodel.Absent has Kind_Null and is written as null *)
 Fixpoint ov_enc_dm (o : ov) : option dm :=
